@@ -24,18 +24,21 @@ import (
 
 type stubLedger struct{}
 
-func (stubLedger) BlockHeight() uint32                            { return 0 }
-func (stubLedger) CurrentBlockHash() util.Uint256                 { return util.Uint256{} }
-func (stubLedger) GetBlock(util.Uint256) (*block.Block, error)    { return nil, errors.New("no blocks") }
-func (stubLedger) GetConfig() config.Blockchain                   { return config.Blockchain{} }
-func (stubLedger) GetHeaderHash(uint32) util.Uint256              { return util.Uint256{} }
-func (stubLedger) NativeManagementID() int32                      { return -1 }
+func (stubLedger) BlockHeight() uint32                         { return 0 }
+func (stubLedger) CurrentBlockHash() util.Uint256              { return util.Uint256{} }
+func (stubLedger) GetBlock(util.Uint256) (*block.Block, error) { return nil, errors.New("no blocks") }
+func (stubLedger) GetConfig() config.Blockchain                { return config.Blockchain{} }
+func (stubLedger) GetHeaderHash(uint32) util.Uint256           { return util.Uint256{} }
+func (stubLedger) NativeManagementID() int32                   { return -1 }
 
 func newIC(d *dao.Simple) *interop.Context {
-	ic := interop.NewContext(trigger.Application, stubLedger{}, d, 0, 1000,
-		func(*dao.Simple, util.Uint160) (*state.Contract, error) {
-			return &state.Contract{ContractBase: state.ContractBase{ID: daoID}}, nil
-		}, nil, nil, nil, nil, nil)
+	return newICWith(d, func(*dao.Simple, util.Uint160) (*state.Contract, error) {
+		return &state.Contract{ContractBase: state.ContractBase{ID: daoID}}, nil
+	})
+}
+
+func newICWith(d *dao.Simple, getContract func(*dao.Simple, util.Uint160) (*state.Contract, error)) *interop.Context {
+	ic := interop.NewContext(trigger.Application, stubLedger{}, d, 0, 1000, getContract, nil, nil, nil, nil, nil)
 	ic.DAO = d // work on the layer itself, not on NewContext's private wrapper
 	ic.VM = vm.New()
 	ic.VM.SetGasLimit(-1)
@@ -211,8 +214,33 @@ func (b *battery) interopBattery(t int) {
 			return istorage.Find(ic)
 		})
 	}
+	expectErr("AsReadOnly(not a context)", func() error {
+		es.PushVal(stackitem.NewInterop(42))
+		return istorage.ContextAsReadOnly(ic)
+	})
+	// out of gas: the storage fee of a new item cannot be paid, nothing may be stored
+	fresh := []byte("zz-gas")
+	low := newIC(b.s.daos[t-1])
+	low.VM.SetGasLimit(0)
+	expectErr("Put(new item, gas limit 0)", func() error { return interopPut(low, fresh, vals[0], 0) })
+	expectErr("Local.Put(new item, gas limit 0)", func() error { return interopPut(low, fresh, vals[0], 1) })
+	if _, err := b.s.ly[t-1].Get(append([]byte(baseS), fresh...)); err == nil {
+		b.fail("mismatch", api, t, "must-fail", "Put(new item, gas limit 0)", "nothing stored", "item stored", "")
+	}
+	// dynamic script: the executing contract is unknown, no context, no Local.* access
+	dyn := newICWith(b.s.daos[t-1], func(*dao.Simple, util.Uint160) (*state.Contract, error) {
+		return nil, errors.New("unknown contract")
+	})
+	des := dyn.VM.Estack()
+	expectErr("GetContext(dynamic script)", func() error { return istorage.GetContext(dyn) })
+	expectErr("GetReadOnlyContext(dynamic script)", func() error { return istorage.GetReadOnlyContext(dyn) })
+	expectErr("Local.Get(dynamic script)", func() error { des.PushVal(key); return istorage.LocalGet(dyn) })
+	expectErr("Local.Put(dynamic script)", func() error { des.PushVal(vals[0]); des.PushVal(fresh); return istorage.LocalPut(dyn) })
+	expectErr("Local.Delete(dynamic script)", func() error { des.PushVal(key); return istorage.LocalDelete(dyn) })
+	expectErr("Local.Find(dynamic script)", func() error { des.PushVal(int64(0)); des.PushVal(key); return istorage.LocalFind(dyn) })
+	des.Clear()
 	// the long key and the big value must not have been stored
-	if v := b.s.daos[t-1].GetStorageItem(daoID, long); v != nil {
+	if _, err := b.s.ly[t-1].Get(append([]byte(baseS), long...)); err == nil {
 		b.fail("mismatch", api, t, "must-fail", "Put(key of 65 bytes)", "nothing stored", "item stored", "")
 	}
 
